@@ -398,6 +398,25 @@ def handle : List String → String
         | none => "bad-op"
       | _ => "bad-formulas"
     | _, _ => "bad-op"
+  | ["alpha", lo, hi] =>
+    -- the code points of [lo, hi] the model takes as alphabetic, as ranges "a-b,c-d"
+    match lo.toNat?, hi.toNat? with
+    | some lo, some hi =>
+      let isA (n : Nat) : Bool := (n < 128 && (Char.ofNat n).isAlpha) || uniAlpha n
+      let rec go (fuel n : Nat) (start : Option Nat) (acc : List String) : List String :=
+        match fuel with
+        | 0 => acc
+        | fuel + 1 =>
+          if n > hi then
+            match start with
+            | some a => (s!"{a}-{n - 1}") :: acc
+            | none => acc
+          else if isA n then go fuel (n + 1) (some (start.getD n)) acc
+          else match start with
+            | some a => go fuel (n + 1) none ((s!"{a}-{n - 1}") :: acc)
+            | none => go fuel (n + 1) none acc
+      ",".intercalate (go (hi - lo + 2) lo none []).reverse
+    | _, _ => "bad-op"
   | ["f64", h] =>
     match hexToStr h with
     | some s => match parseF64Bits s with
